@@ -25,7 +25,7 @@ ALPHABET = "[]{},a1 :"
 PACK = 20000
 TIMEOUT = 60            # wall-clock fallback of the runner; the real step budgets are the CPU budgets below
 STRING_BUDGET = 1.0     # user-CPU seconds for one input string through the three entry points (normal: ~10 us)
-FILE_BUDGET = 2.0       # one file round trip (normal: < 1 ms of CPU)
+FILE_BUDGET = 0.5       # one file round trip (normal: < 1 ms of CPU)
 TIMEOUT_IS_VIOLATION = True
 CHUNK = 4
 
@@ -160,7 +160,7 @@ def _check_str(case):
             got = A.raw_canon(back)         # raw values: 1 != '1', so the int-or-string decision is compared too
             if got != want:
                 fail("Ranking.from_string", r, vname, text, A.ranking_to_raw(back))
-            elif not (back == rr) or not (rr == back):
+            elif not (back == rr) or not (rr == back):      # noqa: SIM201 -- exercise __eq__ both ways
                 fail("Ranking.__eq__ after from_string", r, vname, text, A.ranking_to_raw(back))
             # the low-level parser of the matching alphabet
             try:
@@ -204,10 +204,13 @@ def _check_file(case):
     try:
         path = os.path.join(tmp, "d.txt")
         try:
+            _arm(FILE_BUDGET)       # armed only around the repo calls (imports may JIT-compile for seconds)
             with A.quiet():
                 ds.write(path)
                 back = Dataset.from_file(path)
+            _arm(0)
         except Exception as e:      # noqa: BLE001 -- repo exception: classified
+            _arm(0)
             if _is_timeout(e):
                 return {"fails": [{"clause": "C18.terminates", "site": "Dataset.from_file",
                                    "detail": {"rankings": rankings}}], "key": None, "evals": 1}
@@ -293,7 +296,6 @@ def check_case(case):
         if case["kind"] == "str":
             return _check_str(case)
         if case["kind"] == "file":
-            _arm(FILE_BUDGET)
             return _check_file(case)
         return _check_total(case)
     finally:
